@@ -6,6 +6,8 @@ spec = json.load(open(os.path.join(root, "tools", "checks.json")))
 props = [json.loads(l)["id"] for l in open(os.path.join(root, "properties.jsonl"))]
 checks = []
 for c in spec["checks"]:
+    if c.get("disabled"):
+        continue
     pid = c["property_id"]
     checks.append({
         "property_id": pid,
